@@ -35,6 +35,11 @@ pub struct Timestamp { pub us: u64 }
 #[derive(Clone, Copy)]
 pub struct PacketNumber { pub v: u64 }
 pub struct DurationX { pub us: u64 }
+impl DurationX {
+    #[verifier::external_body]
+    pub fn mul_u32(self, k: u32) -> (r: DurationX) { unimplemented!() }
+}
+pub const RTT_MULTIPLIER: u32 = 3;
 pub const EXPIRATION_BUFFER: DurationX = DurationX { us: 30_000_000 };
 
 // `time + EXPIRATION_BUFFER` inside LocalIdInfo::retire: Timestamp + Duration (core; C09 timestamp harness)
@@ -46,7 +51,7 @@ impl Timestamp {
 //@ splice-item quic/s2n-quic-transport/src/connection/local_id_registry.rs "pub enum LocalIdStatus"
 use LocalIdStatus::*;
 
-#[derive(Clone, Copy)]
+#[derive(Clone, Copy, PartialEq, Eq, Structural)]
 pub struct LocalId { pub len: u8, pub a: u64, pub b: u64 }
 impl LocalId {
     #[verifier::external_body]
@@ -242,6 +247,25 @@ impl LocalIdRegistry {
             final(self).registered_ids == old(self).registered_ids,
     {
 //@ splice-stmts quic/s2n-quic-transport/src/connection/local_id_registry.rs "LocalIdRegistry" on_packet_loss "from=for id_info in self" inner=1
+    }
+
+    // ---- on_retire_connection_id: the entry found for the retired sequence number -------------------------------------------
+    // RFC 9000 19.16: "The sequence number specified in a RETIRE_CONNECTION_ID frame MUST NOT refer to the Destination
+    // Connection ID field of the packet in which the frame is contained" -- rejected, entry untouched; otherwise exactly that
+    // entry stops counting (PendingRemoval) and nothing else changes
+    fn on_retire_connection_id_found(&mut self, id_info: Option<&mut LocalIdInfo>, destination_connection_id: &LocalId, rtt: DurationX, timestamp: Timestamp) -> (ret: Result<(), LocalIdRegistrationError>)
+        ensures
+            id_info is Some && old(id_info->Some_0).id == *destination_connection_id ==> ret is Err && ret->Err_0 is InvalidSequenceNumber && *final(id_info->Some_0) == *old(id_info->Some_0),
+            id_info is Some && old(id_info->Some_0).id != *destination_connection_id ==> ret is Ok
+                && lid_retire_entry_post(abs_e(*old(id_info->Some_0)), old(id_info->Some_0).sequence_number as int, abs_e(*final(id_info->Some_0))),
+            id_info is None ==> ret is Ok,
+            final(self).retire_prior_to == old(self).retire_prior_to,
+            final(self).next_sequence_number == old(self).next_sequence_number,
+            final(self).active_connection_id_limit == old(self).active_connection_id_limit,
+            final(self).registered_ids == old(self).registered_ids,
+    {
+//@ splice-stmts quic/s2n-quic-transport/src/connection/local_id_registry.rs "LocalIdRegistry" on_retire_connection_id "from=if let Some(id_info) = id_info" "subst=timestamp + rtt * RTT_MULTIPLIER=>timestamp.add(rtt.mul_u32(RTT_MULTIPLIER))"
+        Ok(())
     }
 
     // ---- register_connection_id: issue the next sequence number ---------------------------------------------------
